@@ -3,7 +3,7 @@ use crate::model::*;
 use crate::names;
 use crate::rng::Rng;
 use crate::spec::Analysis;
-use crate::tree::{join_rel, norm_rel, parent_rel};
+use crate::tree::{join_rel, parent_rel};
 use std::collections::BTreeSet;
 
 pub const KS: [usize; 6] = [1, 2, 3, 4, 8, 16];
@@ -48,6 +48,8 @@ pub struct GraphOpts {
     pub wide: bool,
     /// allow one source of more than 1 MiB (never together with per-step snapshots)
     pub mega: bool,
+    /// plant `lnk -> sub` (a symlinked directory) and spell some paths through it
+    pub symlinks: bool,
 }
 
 impl Default for GraphOpts {
@@ -66,6 +68,7 @@ impl Default for GraphOpts {
             sized: true,
             wide: false,
             mega: false,
+            symlinks: false,
         }
     }
 }
@@ -247,6 +250,13 @@ pub fn gen_graph_project(rng: &mut Rng, o: &GraphOpts, n: usize, edges: &BTreeSe
     for (path, data) in &plains {
         p.add_file(path, B::s(data));
     }
+    let linked = o.symlinks && rng.chance(1, 3);
+    if linked {
+        p.entries.push(Entry::Symlink {
+            path: "lnk".into(),
+            target: "sub".into(),
+        });
+    }
     let mut paths: Vec<String> = vec![];
     for i in 0..n {
         if i % 2 == 1 && rng.chance(1, 6) {
@@ -288,6 +298,12 @@ pub fn gen_graph_project(rng: &mut Rng, o: &GraphOpts, n: usize, edges: &BTreeSe
         }
         for (k, dj) in deps.iter().enumerate() {
             let x = rel_path(&dir, &outs[*dj]);
+            let x = if linked && outs[*dj].starts_with("sub/") && rng.chance(1, 2) {
+                // the same file through the symlinked directory
+                rel_path(&dir, &format!("lnk/{}", &outs[*dj][4..]))
+            } else {
+                x
+            };
             let x = match rng.below(8) {
                 0 => format!("./{x}"),
                 1 if o.absolute => format!("@ROOT@/{}", outs[*dj]),
@@ -527,12 +543,15 @@ pub fn r_inputs(p: &Project, a: &Analysis, base: &str, inputs: &[String], recurs
     };
     let mut set = BTreeSet::new();
     for inp in inputs {
+        // the operating system's view: symlinked directories resolved
         let t = if let Some(r) = inp.strip_prefix("@ROOT@/") {
-            norm_rel(r)
+            p.resolve(r)
         } else if inp == "@ROOT@" {
             Some(String::new())
+        } else if base.is_empty() {
+            p.resolve(inp)
         } else {
-            join_rel(base, inp)
+            p.resolve(&format!("{base}/{inp}"))
         };
         let t = match t {
             Some(t) => t,
@@ -570,6 +589,10 @@ pub fn r_inputs(p: &Project, a: &Analysis, base: &str, inputs: &[String], recurs
 
 /// A seeded input selection for graph engines: always resolvable, never empty.
 pub fn gen_inputs(rng: &mut Rng, a: &Analysis, aliases: bool) -> (Vec<String>, bool) {
+    gen_inputs_l(rng, a, aliases, false)
+}
+
+pub fn gen_inputs_l(rng: &mut Rng, a: &Analysis, aliases: bool, has_link: bool) -> (Vec<String>, bool) {
     let n = a.n();
     let recursive = !rng.chance(1, 5);
     match rng.below(10) {
@@ -616,6 +639,10 @@ pub fn gen_inputs(rng: &mut Rng, a: &Analysis, aliases: bool) -> (Vec<String>, b
                 if aliases && rng.chance(1, 4) {
                     // name the same file twice, by the other name
                     v.push(s.path.clone());
+                }
+                if aliases && has_link && s.out.starts_with("sub/") && rng.chance(1, 2) {
+                    // and once more through the symlinked directory
+                    v.push(format!("lnk/{}", &s.out[4..]));
                 }
             }
             (v, recursive)
